@@ -1453,6 +1453,11 @@ class DiskRefsContainer(RefsContainer):
                 # Never pack HEAD
                 continue
             if all or ref.startswith(LOCAL_TAG_PREFIX):
+                contents = self.read_loose_ref(ref)
+                if contents is not None and contents.startswith(SYMREF):
+                    # Symbolic refs cannot be represented in packed-refs;
+                    # packing one would turn it into a direct ref
+                    continue
                 try:
                     sha = self[ref]
                     if sha:
